@@ -16,7 +16,7 @@ DEFAULT_KNOBS = dict(
     listeners=(0, 2), multi_prov=0.2, sends=0.0, raises=0.0, guard_raise=0.0, ops=(1, 12),
     unknown_ev=0.1, p_activate=0.03, p_construct=0.03, p_write=0.03, rtc_false=0.15, allow=0.3,
     resume=0.1, start=0.1, send_budget=8, scripts=(0, 4), ret_none=0.3,
-    p_async=0.0, falsy_machine=0.06, share_groups=0.15, p_values=0.15, styles=("str", "str", "list", "obj", "assign"),
+    p_async=0.0, async_mode=None, yields=0.0, falsy_machine=0.06, share_groups=0.15, p_values=0.15, styles=("str", "str", "list", "obj", "assign"),
 )
 SHARE = ["val", "before", "on", "after", "enter", "exit"]
 STATE_VALUES = [0, 1, 2, -1, {"s": 0}, {"s": 1}, {"t": [1]}, {"t": []}, 10, 11, 12]
@@ -262,7 +262,7 @@ def gen_scenario(rng, knobs=None):
             values[start] = None          # falsy start_value: see C10 (kept out of the engine family)
     acoro = []
     if rng.random() < K["p_async"]:
-        mode = rng.choice(["all", "one", "mixed"])
+        mode = K["async_mode"] or rng.choice(["all", "one", "mixed"])
         multi = {}
         for p, nm, group in cbs:
             multi.setdefault(tuple(nm), []).append(p)
@@ -279,6 +279,17 @@ def gen_scenario(rng, knobs=None):
             for p, kind, k, scripts, _d in tbl:
                 if any(a[0] == "send" for s_ in scripts for a in s_["a"]) and (p, kind, k) not in have:
                     acoro.append([p, kind, k])
+    if acoro and K["yields"] > 0:
+        have = {tuple(x) for x in acoro}
+        for p, kind, k, scripts, dflt in tbl:
+            if (p, kind, k) in have:
+                for sc_ in scripts + [dflt]:
+                    if rng.random() < K["yields"]:
+                        acts = sc_["a"]
+                        pos = len(acts) - 1 if acts and acts[-1][0] == "raise" else len(acts)
+                        if sc_ is dflt:
+                            continue          # default scripts stay pure
+                        acts.insert(pos, ["yield"])
     return {"evstyle": style, "values": values, "async": acoro, "falsy_machine": rng.random() < K["falsy_machine"], "n": n, "initial": initial, "finals": finals, "ne": ne, "trans": trans, "states": states,
             "provs": provs, "start": start, "rtc": rtc, "allow": rng.random() < K["allow"],
             "field0": field0, "tbl": tbl, "ops": ops}
